@@ -197,6 +197,52 @@ func linRateNs(x *in, t int64) float64 {
 	return (x.slope()*float64(t)/1e9 + float64(x.Freq)/float64(x.Per)*1e9) / 1e9
 }
 
+// rateOf: the instantaneous rate (hits per second) whose integral the oracle's schedule is —
+// d/dt of S, written out per pacer; scale is the magnitude of its terms (for the tolerance).
+func rateOf(x *in, t int64) (rate, scale float64, ok bool) {
+	switch x.Pacer {
+	case "const":
+		if x.Freq > 0 && x.Per > 0 {
+			r := float64(x.Freq) / float64(x.Per) * 1e9
+			return r, r, true
+		}
+	case "sine":
+		if sch := scheduleOf(x); sch != nil && t >= 0 {
+			sp := sch.(sineSched)
+			frac := float64(t%sp.pi) / sp.p
+			// the code evaluates sin at the unreduced angle O + 2π·t/P, whose rounding error grows with
+			// t/P: allow 1e-15 relative of that angle on the amplitude term (scale is multiplied by 1e-9)
+			ang := math.Abs(sp.o) + 2*math.Pi*float64(t)/sp.p
+			return (sp.m + sp.a*math.Sin(sp.o+2*math.Pi*frac)) * 1e9, (sp.m + math.Abs(sp.a)*(1+ang*1e-6)) * 1e9, true
+		}
+	case "linear":
+		if sch := scheduleOf(x); sch != nil {
+			l := sch.(linSched)
+			xs := float64(t) / 1e9
+			return l.a*xs + l.b, math.Abs(l.a*xs) + l.b, true
+		}
+	}
+	return 0, 0, false
+}
+
+// firstOrder: the answer of the documented linear algorithm at (t, n), computed from the oracle's
+// own schedule and rate: trunc(round(1e9/rate(t)) · (n+1−H(t))).  ok=false where it is not defined
+// or numerically delicate (catch-up branch, rate <= 0, count on an integer boundary of H).
+func firstOrder(x *in, l linSched, t int64, n uint64) (w float64, ok bool) {
+	if n == 0 || t < 0 {
+		return 0, false
+	}
+	h, mag := l.Hf(t)
+	r := l.a*float64(t)/1e9 + l.b
+	if !(r > 0) || h < 0 {
+		return 0, false
+	}
+	if fl := math.Floor(h); float64(n) < fl || math.Abs(h-math.Round(h)) < 1e-9*(1+mag) {
+		return 0, false
+	}
+	return math.Trunc(math.Round(1e9/r) * (float64(n+1) - h)), true
+}
+
 type finding struct {
 	kind, what, expected, observed, clause string
 	step                                   int
@@ -244,10 +290,46 @@ func runLoop(x *in, each func(k int, t int64, n uint64, line string)) (loopOut, 
 	if x.Pacer == "sine" && sch != nil {
 		ss = sch.(sineSched)
 	}
+	// linear: the two known findings are about the documented first-order algorithm; an answer that
+	// is not the one that algorithm gives makes every later violation of this run a fresh one
+	linDeviates := false
+	sameInstant := 0
+	const floodK = 3
 	for k := 0; k < x.Steps; k++ {
 		w, stop, pk, line := pace(p, t, n)
 		if each != nil {
 			each(k, t, n, line)
+		}
+		if gs != nil {
+			if f, bad := negativeWait(gs, x, t, n, w, stop, pk); bad {
+				f.step = k
+				add(f)
+			}
+		}
+		// "once the declared rate is <= 0 no further hit is due": more than floodK releases at one
+		// virtual instant while the rate is not positive is a flood
+		if sch != nil && !pk && !stop && x.Pacer == "linear" {
+			if r, _, ok := rateOf(x, t); ok && r <= 0 && w <= 0 {
+				sameInstant++
+				if sameInstant > floodK {
+					kind := "linear_flood_after_rate_nonpositive"
+					if x.slope() < 0 && !linDeviates {
+						kind = "linear_negative_slope_ahead" // part of that known finding on the unchanged code, gated by model_agrees
+					}
+					add(finding{kind: kind, clause: "flood", step: k,
+						what:     "hits keep being released at one instant although the declared rate is not positive any more",
+						expected: fmt.Sprintf("stop (or wait) at t=%d: rate %.3g hits/s, schedule %s", t, r, sch.show(t)),
+						observed: fmt.Sprintf("%d consecutive answers (%d, false) at the same instant, count %d", sameInstant, w, n)})
+				}
+			} else {
+				sameInstant = 0
+			}
+		}
+		if x.Pacer == "linear" && sch != nil && !pk && !stop {
+			if fo, ok := firstOrder(x, sch.(linSched), t, n); ok && math.Abs(fo) < 9e18 &&
+				math.Abs(float64(w)-fo) > math.Max(2, 1e-6*math.Abs(fo)) {
+				linDeviates = true
+			}
 		}
 		if pk {
 			out.end = 2
@@ -321,6 +403,8 @@ func runLoop(x *in, each func(k int, t int64, n uint64, line string)) (loopOut, 
 				kind = "sine_subnanosecond_interval"
 			case x.Pacer == "sine" && unconverged:
 				kind = "sine_unconverged_runaway"
+			case x.Pacer == "linear" && linDeviates:
+				key = map[string]interface{}{"deviates_from_first_order_wait": true}
 			case x.Pacer == "linear" && linRateNs(x, t) >= subNs:
 				kind = "linear_subnanosecond_interval"
 				key = map[string]interface{}{"rate_hits_per_ns": linRateNs(x, t)}
